@@ -805,6 +805,19 @@ fn exercise(data: &[u8]) {
         let r = Ipv6Header::skip_all_header_extensions(&mut c, IpNumber(nh)).map(|n| n.0).map_err(|e| e.kind());
         dbg(&format!("skipar.{nh}"), &(r, c.position()));
     }
+    // raw TCP option area of any length (rejected above 40 bytes)
+    match TcpOptions::try_from_slice(data) {
+        Ok(o) => {
+            dbg("tcpopts.len", &o.len());
+            ex_tcp_opts("tcpopts.it", o.elements_iter());
+        }
+        Err(e) => dbg("tcpopts.err", &e),
+    }
+    {
+        let mut h = TcpHeader::new(1, 2, 3, 4);
+        let r = h.set_options_raw(data);
+        dbg("tcphdr.set_options_raw", &(r, h.header_len()));
+    }
     // deprecated aliases (still public)
     #[allow(deprecated)]
     {
